@@ -115,7 +115,9 @@ func sweep(o *common.Opts, dbs int) (probes int, note string) {
 		return 0, "server start failed: " + err.Error()
 	}
 	defer srv.Kill()
-	args := []string{"0", "1", strconv.Itoa(dbs - 1), strconv.Itoa(dbs), strconv.Itoa(dbs + 1), "-1", "", "a", "1.0", "01", "+1", " 1", "2147483648", "9223372036854775808", "18446744073709551616", "0x1", "1 ", "-0"}
+	args := []string{"0", "1", strconv.Itoa(dbs - 1), strconv.Itoa(dbs), strconv.Itoa(dbs + 1), "-1", "", "a", "1.0", "01", "+1", " 1", "2147483648", "9223372036854775808", "18446744073709551616", "0x1", "1 ", "-0",
+		// single bytes around the digits in the character table, and digits of other scripts
+		":", ";", "<", "=", ">", "?", "/", ".", "@", "A", "a", "`", "\x00", "\x3a\x30", "\xd9\xa3", "\xef\xbc\x91", "1\x00", "\x001"}
 	c, err := respc.Dial(srv.Addr, 10*time.Second)
 	if err != nil {
 		return 0, "dial failed"
@@ -490,7 +492,7 @@ func main() {
 		Coverage: map[string]any{
 			"evaluations":         probes + histories,
 			"distinct_nontrivial": probes + hops,
-			"rule": "SELECT argument sweep (18 spellings x 3 rounds x database counts {1,2,3,5,16,20,33}, configuration file laid out four ways: LF with final newline, no final newline, CRLF with blank lines and no final newline as in the shipped file, directive first in upper case), each followed by a probe write located from a fresh connection; concurrent histories of 2-8 connections x 300+ operations hopping between databases " +
+			"rule": "SELECT argument sweep (36 spellings incl. the single bytes next to the digits and digits of other scripts x 3 rounds x database counts {1,2,3,5,16,20,33}, configuration file laid out four ways: LF with final newline, no final newline, CRLF with blank lines and no final newline as in the shipped file, directive first in upper case), each followed by a probe write located from a fresh connection; concurrent histories of 2-8 connections x 300+ operations hopping between databases " +
 				"and writing tagged values (connection, database, sequence) to the same key name; non-trivial = sweep probes + database hops performed inside concurrent histories",
 			"samples":                    []any{"SELECT \"01\" then SET probe -> located in exactly one database", "c3 SELECT 5; c3 SET k c3:d5:s17; c1 SELECT 2; c3 GET k -> must carry d5"},
 			"cluster_mode_select_probes": clProbes,
